@@ -987,3 +987,39 @@ def _is_last_entry(f, sub, load):
             if not g.dominates(load, w):
                 return False
     return True
+
+
+def check_teardown_after_barrier(ck, P, rid):
+    """A worker releases the histories of its LPs (lp_fini -> process_lp_fini) and the content of its queue only after a thread barrier
+    that follows the main loop: until every thread has left its loop another thread can still roll back and touch (flag RMW, re-queue)
+    a message that sits in this thread's history or queue."""
+    cfg = P.config
+    f = P.fn_opt("worker_thread_fini")
+    if f is None:
+        ck.broken("%s: worker_thread_fini not found" % rid)
+        return
+    g = f.cfg
+
+    def always_barrier(fn, depth=0):
+        """fn passes a thread barrier on every path from entry to exit."""
+        if fn is None or not fn.d.get("cfg") or depth > 3:
+            return False
+        cand = [c for c in fn.calls() if c.callee == "sync_thread_barrier" or (c.callee and c.callee != fn.name and always_barrier(P.fn_opt(c.callee), depth + 1))]
+        for c in cand:
+            pos = fn.cfg.position(c)
+            if pos is None:
+                continue
+            if fn.cfg.escapes(fn.cfg.entry_point(), {c.id}, goal="exit") is None:
+                return True
+        return False
+    barriers = [c for c in f.calls() if c.callee == "sync_thread_barrier" or (c.callee and always_barrier(P.fn_opt(c.callee)))]
+    n = 0
+    for name in ("lp_fini", "msg_queue_fini"):
+        for c in f.calls(name):
+            n += 1
+            inst = "teardown-after-barrier:%s" % name
+            if any(g.dominates(b, c) for b in barriers):
+                ck.holds(rid, inst, c.where, "a thread barrier (directly or inside %s) dominates the call" % ", ".join(sorted({b.callee for b in barriers if g.dominates(b, c)})), cfg)
+            else:
+                ck.violated(rid, inst, c.where, "%s runs before any thread barrier that follows the main loop: another thread that is still processing can roll back and modify or re-queue a message this thread has just released (use after free)" % name, cfg)
+    ck.expect(rid, n, 2, "teardown calls in worker_thread_fini")
